@@ -698,6 +698,13 @@ func (r *Report) Finish() int {
 	for _, l := range vioLines {
 		fmt.Println(l)
 	}
+	// keep the evidence file small: at most 200 classes, short descriptions
+	if len(clsList) > 200 {
+		clsList = clsList[:200]
+	}
+	for i := range clsList {
+		clsList[i].What = trunc(clsList[i].What, 300)
+	}
 	cov := map[string]any{
 		"evaluations":         r.Evaluations,
 		"distinct":            r.Distinct,
@@ -709,6 +716,7 @@ func (r *Report) Finish() int {
 		"exhaustive":          r.Exhaustive,
 		"caps_hit":            r.Caps,
 		"classes":             clsList,
+		"classes_total":       len(classes),
 		"known_findings_observed": knownSeen,
 		"unstable":            r.Unstable,
 	}
